@@ -60,7 +60,7 @@ def table(n_real: int, n_fun: int, variant: int, seed: int) -> np.ndarray:
 
 
 def build_config(R: int, wname: str, n_obj: int, n_con: int, ow: list[float], emap: tuple[int, ...],
-                 fmap: tuple[int, ...], rms: int, fset: str = "obj") -> dict[str, Any]:
+                 fmap: tuple[int, ...], rms: int, fset: str = "obj", spelled: bool = False) -> dict[str, Any]:
     config: dict[str, Any] = {
         "variables": {"initial_values": [0.0]},
         "realizations": {"weights": weight_vectors(R)[wname], "realization_min_success": rms},
@@ -69,7 +69,8 @@ def build_config(R: int, wname: str, n_obj: int, n_con: int, ow: list[float], em
             "function_estimators": list(emap[:n_obj]),
             "realization_filters": list(fmap[:n_obj]),
         },
-        "function_estimators": [{"method": "mean"}, {"method": "stddev"}],
+        # method names are case-insensitive and may carry the plug-in name
+        "function_estimators": [{"method": "MEAN"}, {"method": "Default/StdDev"}] if spelled else [{"method": "mean"}, {"method": "stddev"}],
         "realization_filters": [
             {"method": "sort-objective", "options": {"sort": [0], "first": 0, "last": max(0, R - 2)}},
             {"method": "cvar-objective", "options": {"sort": [0], "percentile": 0.5}},
@@ -161,7 +162,8 @@ def judge(case: dict[str, Any]) -> Judgement:
     F = n_obj + n_con
     emap, fmap = tuple(case["emap"]), tuple(case["fmap"])
     mask, nan_col = case["mask"], case["nan_col"]
-    config = validate(build_config(R, case["weights"], n_obj, n_con, case["ow"], emap, fmap, case["rms"], case.get("fset", "obj")))
+    config = validate(build_config(R, case["weights"], n_obj, n_con, case["ow"], emap, fmap, case["rms"], case.get("fset", "obj"),
+                                   spelled=case["rms"] == 0))
     tab = table(R, F, case["variant"], case["seed"])
 
     def fn(x: np.ndarray, r: int) -> np.ndarray:
@@ -278,6 +280,16 @@ def judge(case: dict[str, Any]) -> Judgement:
     obs = run(fresh(), xs[0], grad=True)
     transitions += 1
     compare("both", 0, obs if isinstance(obs, tuple) else obs[0])
+
+    # functions + gradients where a realization fails ONLY in its perturbations: that concerns the gradient, the function
+    # values of the point are those of the unperturbed evaluations (compared when the evaluation returns results)
+    if case.get("pertfail", True):
+        for pf_real in (mask % R,):
+            ev = TableEvaluator(fn, n_obj, n_con, fail=lambda call, row, r, p, pf=pf_real: [0] if (p >= 0 and r == pf) else None)
+            obs = run(EnsembleEvaluator(config, None, ev, manager), xs[2], grad=True)
+            transitions += 1
+            if not isinstance(obs, tuple):
+                compare(f"both:perturbations-of-realization-{pf_real}-fail", 2, obs[0])
 
     j.transitions = transitions
     j.trivial = nontrivial_pairs == 0
